@@ -1,5 +1,5 @@
 (* C01 — per-case judge.  One case = one writer/reader session of the real code:
-   payloads written through netmc.NewWriter (threshold, level, optional secret), the wire bytes that
+   a history of Write / SetCompressionThreshold / EnableEncryption / Flush calls on netmc.NewWriter, the wire bytes that
    reached the conn, the sizes of the chunks the conn handed to the reader, and what netmc.NewReader
    returned.  zlib and AES are instantiated from the per-case oracle tables. *)
 From Coq Require Import List NArith ZArith Bool FMapPositive.
@@ -25,20 +25,26 @@ Definition oterm_eqb (a b : oterm) : bool :=
   end.
 
 Record case := mk {
-  thr : Z;                         (* compression threshold, -1 = off *)
-  lvl : Z;                         (* zlib level *)
+  lvl : Z;                         (* zlib level given to NewWriter *)
   serverbound : bool;              (* reader direction *)
-  secret : option bytes;           (* 16-byte shared secret when encryption is on *)
-  payloads : list bytes;           (* what was passed to Writer.Write, in order *)
+  ops : list wop;                  (* what was done to the Writer, in order; it starts with compression off
+                                      (threshold -1) and no encryption; the reader mirrors the changes *)
   dtbl : list (bytes * bytes);     (* zlib oracle: payload -> compress/zlib output at lvl *)
   ebytes : bytes;                  (* AES oracle: first byte of AES_secret(register) for the register in front of
-                                      each wire byte; the registers themselves are the 16-byte windows of
-                                      secret ++ wire_obs and are rebuilt here *)
+                                      each ENCRYPTED wire byte (the last |ebytes| bytes of the wire); the registers
+                                      are the 16-byte windows of secret ++ that part of wire_obs, rebuilt here *)
   wire_obs : bytes;                (* bytes the real writer put on the conn *)
   chunk_sizes : list (N * N);      (* sizes of the successive conn.Read results, run-length encoded (size, times) *)
   read_obs : list bytes;           (* payloads the real reader returned *)
   term_obs : oterm                 (* how reading ended *)
 }.
+
+Fixpoint first_secret (ops : list wop) : option bytes :=
+  match ops with
+  | [] => None
+  | WEnc s :: _ => Some s
+  | _ :: r => first_secret r
+  end.
 
 (* table register -> byte: the i-th register is bytes i..i+15 of secret ++ wire *)
 Fixpoint aes_map_from (regs eb : bytes) (m : PositiveMap.t N) : PositiveMap.t N :=
@@ -71,14 +77,15 @@ Definition judge (c : case) : verdict :=
   let I := fun z => match assoc_bytes z (map (fun kv => (snd kv, fst kv)) (dtbl c)) with
                     | Some p => mkz p true | None => mkz [] false end in
   let L := fun (_ : bytes) (_ : N) => false in
-  let m := aes_map (secret c) (wire_obs c) (ebytes c) in
+  let off := (length (wire_obs c) - length (ebytes c))%nat in
+  let m := aes_map (first_secret (ops c)) (skipn off (wire_obs c)) (ebytes c) in
   let E := aes_of m in
-  let cf := mkcfg (thr c) (dir_of (serverbound c)) in
-  let premises := forallb (fun p => starts_with_id p && fitsb D (thr c) (lvl c) (c_dir cf) p) (payloads c) in
-  let holds := beq_list (read_obs c) (payloads c) && oterm_eqb (term_obs c) ONeedMore in
+  let d := dir_of (serverbound c) in
+  let premises := ops_ok D (lvl c) (-1) d (ops c) in
+  let holds := beq_list (read_obs c) (written (ops c)) && oterm_eqb (term_obs c) ONeedMore in
   if premises && negb holds then VViolation
   else
-    let w := wire D E (thr c) (lvl c) (secret c) (payloads c) in
-    let '(ps, t) := decode_stream I L E cf (secret c) (split_sizes (wire_obs c) (unrle (chunk_sizes c))) in
+    let w := wire_ops D E (lvl c) (-1) None (ops c) in
+    let '(ps, t) := read_ops I L E d (-1) (mkrd (split_sizes (wire_obs c) (unrle (chunk_sizes c))) None) (ops c) in
     if beq_bytes w (wire_obs c) && beq_list ps (read_obs c) && oterm_eqb (coarse t) (term_obs c)
     then VOk else VMismatch.
